@@ -21,3 +21,16 @@ MUTANTS = [
     ("c17_radius", "C17", "plotting/_geo.py", "R = 6_371_000.0", "R = 6_378_137.0"),
     ("c17_no_cos_in_inverse", "C17", "plotting/_geo.py", "np.degrees(x / (R * np.cos(np.radians(ref_lat))))", "np.degrees(x / R)"),
 ]
+
+MUTANTS += [
+    # ---- C19
+    ("c19_exponent", "C19", "ffm_kormann_meixner.py", "* x[sflag] ** (mr - 2 - mu)", "* x[sflag] ** (mr - 1 - mu)"),
+    ("c19_gamma_r", "C19", "ffm_kormann_meixner.py", "spsp.gamma(1 / r)", "spsp.gamma(r)"),
+    ("c19_downwind", "C19", "ffm_kormann_meixner.py", "sflag = x > 0  # Only", "sflag = x < 0  # Only"),
+    ("c19_rotation_sign", "C19", "ffm_kormann_meixner.py", "new_theta = theta + np.deg2rad(wd) - np.pi * 0.5", "new_theta = theta + np.deg2rad(wd) + np.pi * 0.5"),
+    ("c19_n_24_16", "C19", "ffm_kormann_meixner.py", "n[sflag] = (1 - 24 * zm[sflag] / mo_len[sflag])", "n[sflag] = (1 - 16 * zm[sflag] / mo_len[sflag])"),
+    ("c19_cell_area", "C19", "ffm_kormann_meixner.py", "        grid_res**2\n", "        grid_res\n"),
+    ("c19_zeros_like_int", "C19", "ffm_kormann_meixner.py", "    psi_m = np.zeros_like(zm, dtype=float)\n", "    psi_m = np.zeros_like(zm)\n"),
+    ("c19_z0_window_wrap", "C19", "ffm_kormann_meixner.py", "        elif kk > 270:\n", "        elif kk > 350:\n"),
+    ("c19_mirror_wd", "C19", "ffm_kormann_meixner.py", "new_theta = theta + np.deg2rad(wd) - np.pi * 0.5", "new_theta = -theta + np.deg2rad(wd) - np.pi * 0.5"),
+]
